@@ -454,7 +454,14 @@ func (k *ksGen) restore(src *kgInst, w *kgWallet, n int) *kgInst {
 			hi = 1 + r.Intn(4)
 			k.g.Stats["restore-internal-hint"]++
 		}
-		k.op("restore-mnemonic", "impmn %d %s %d %d", n, w.name, he, hi)
+		// the sentence as typed: canonical, or the same words with other white space
+		sp := 0
+		if r.Intn(2) == 0 {
+			sp = 1 + r.Intn(5)
+			k.g.Stats["restore-mnemonic-respaced"]++
+			k.g.Stats[fmt.Sprintf("respaced-%d", sp)]++
+		}
+		k.op("restore-mnemonic", "impmn %d %s %d %d %d", n, w.name, he, hi, sp)
 		nw.ex, nw.in = he, hi
 		if nw.ex == 0 {
 			nw.ex = 1
@@ -550,9 +557,6 @@ func (k *ksGen) step(in *kgInst) {
 
 func genKs(g *Gen) {
 	nHist := g.Scale(24, 420)
-	if g.Prop == "C04" {
-		nHist = g.Scale(60, 900)
-	}
 	for h := 0; h < nHist; h++ {
 		k := &ksGen{g: g, insts: map[int]*kgInst{}, everEx: map[string]int{}}
 		g.Reset()
